@@ -254,6 +254,14 @@ int main(int argc, char **argv) {
                         const std::string subtag = p.btype + std::to_string(b) + "." + p.name + (form ? ".A" : "");
                         judge(key, subtag, S, rq, o, ref, refconv);
                         judge_hybrid_action(key, subtag, p.name, S, rq, o, ref);
+                        if (o.ran && !o.threw && o.second && all_finite(o.x2) && std::isfinite(o.resid2)) {
+                            // true residual of the second solve against the UPDATED matrix (diagonal times 1.25)
+                            ld rr = 0;
+                            for (int i = 0; i < S.A.n; ++i) { ld a = S.f[i]; for (ptrdiff_t j = S.A.ptr[i]; j < S.A.ptr[i + 1]; ++j) a -= (ld)(S.A.col[j] == i ? S.A.val[j] * 1.25 : S.A.val[j]) * o.x2[S.A.col[j]]; rr += a * a; }
+                            ld tr2 = sqrtl(rr) / S.fn;
+                            vf::count("second_solve_after_inplace_update." + p.name);
+                            if (o.resid2 < 1e-8 && !(tr2 < 1e-6L)) cfail("path.inplace_update." + subtag, key, vf::KS() << "second S(A,rhs,x) after the values of A were updated in place: reported " << o.resid2 << " but the residual against the updated matrix is " << (double)tr2 << " (iters " << o.iters2 << ") :: " << rq.coarsening << "+" << rq.relax << "+" << rq.solver << " :: " << S.descr);
+                        }
                         if (o.ran && !o.threw && o.iters > 2) { rq.maxiter = 2; Out oe = p.run(rq); judge_early(key, subtag, S, rq, oe); rq.maxiter = 100; }
                         else if (o.ran && !o.threw) { judge_early(key, subtag, S, rq, o); }      // the full run stopped within 2 iterations: it is its own early probe
                     }
